@@ -22,7 +22,7 @@ RULE = (
     "program from the co2 grammar; optionally every flow gets a prologue assigning rich variables ($s set, $rx regex, $d dict with an int and "
     "a str key, $n nested containers) and 0-4 statements using them are inserted at drawn positions (send the value, index the dict by its "
     "int key, match with the regex, start an action with a set argument); history of 2-24 items; up to 3 drawn cut points x mode in "
-    "{save, age, both, every (a round trip before each later event), every-age (round trip + 6 s idle before each later event)}; 1 of 4 generated cases runs the shipped library (core, timing, avatars; generator shared with C09) with 1-2 cuts. Non-trivial = at the cut at least one child flow is running and a reference-typed or container variable is live "
+    "{save, age, both, every (a round trip before each later event), every-age (round trip + 6 s idle before each later event)}; 3 of 14 generated cases run the shipped library (core, timing, avatars; generator shared with C09) with 1-2 cuts; 2 of 14 run a fixed program with state-dependent system actions (CheckValidFlowExistsAction, CheckFlowDefinedAction, CheckForActiveEventMatchAction, AddFlowsAction / RemoveFlowsAction of a dynamic flow) through the real RuntimeV2_x.process_events over generated histories (also enumerated: all histories of length 3 over five events); 1 of 14 is an LLMRails conversation (vf.pipeline Colang 2.x configuration: rails, dialog flows, `llm continuation`) of 2-4 turns in which the State object is handed back live vs. the JSON state returned by generate() (modes save, both = + 6 s idle per turn, rewind = an older snapshot restored on the same instance). Non-trivial = at the cut at least one child flow is running and a reference-typed or container variable is live "
     "(save), or a finished instance older than the threshold exists (age); distinct by (program, history, cut, mode)."
 )
 ASSUMPTIONS = [
@@ -101,6 +101,9 @@ def _rails_case(draw):
     cfg["exc"] = draw(st.sampled_from([False, False, True]))
     cfg["style"] = draw(st.sampled_from(["config", "hand"]))
     routes = pipeline.routes_for(cfg)
+    if cfg["dialog"] == "llmc":
+        # "known": the LLM's continuation names a bot intent flow that the configuration defines (and that earlier turns may have run)
+        routes = tuple(routes) + ("known", "known")
     turns = []
     for t in range(draw(st.integers(2, 4))):
         turns.append(
@@ -112,11 +115,148 @@ def _rails_case(draw):
                 "body": draw(pipeline.st_body()),
             }
         )
-    return {"leg": "rails", "config": cfg, "turns": turns, "api": "async", "mode": draw(st.sampled_from(["save", "both", "rewind", "rewind"])), "rewind_to": draw(st.integers(1, 3))}
+    return {"leg": "rails", "config": cfg, "turns": turns, "api": "async", "mode": draw(st.sampled_from(["save", "both", "both", "rewind", "rewind"])), "rewind_to": draw(st.integers(1, 3))}
 
 
 def strategy(tier):
-    return st.one_of(*([_case()] * 8 + [_lib_case()] * 3 + [_rails_case()]))
+    return st.one_of(*([_case()] * 8 + [_lib_case()] * 3 + [_rails_case()] + [_rt_case()] * 2))
+
+
+
+# ------------------------------------------------------------------------------------------------
+# runtime leg: the real RuntimeV2_x.process_events with system actions whose result depends on the state
+
+RT_PROGRAM = r"""
+flow helper
+  match Go()
+  send HelperDone()
+
+flow helper2 $x
+  match Go2()
+  send Helper2Done(x=$x)
+
+flow watcher
+  match Ev0() as $e
+  send Watched(v=$e.v)
+
+flow main
+  match Begin()
+  start helper
+  activate watcher
+  $n = 0
+  while True
+    when Query()
+      $a = await CheckValidFlowExistsAction(flow_id="helper")
+      $b = await CheckValidFlowExistsAction(flow_id="helper2")
+      $c = await CheckFlowDefinedAction(flow_id="dyn flow")
+      $d = await CheckValidFlowExistsAction(flow_id="dyn flow")
+      $m = await CheckForActiveEventMatchAction(event_name="Go")
+      $m2 = await CheckForActiveEventMatchAction(event_name="Go2")
+      send Answer(a=$a, b=$b, c=$c, d=$d, m=$m, m2=$m2, n=$n)
+    or when Restart()
+      start helper
+    or when Second()
+      $n = $n + 1
+      start helper2 $n
+    or when Add()
+      $added = await AddFlowsAction(config="flow dyn flow\n  match DynGo()\n  send DynDone()\n")
+      send Added(n=len($added))
+    or when RunDyn()
+      $ok = await CheckFlowDefinedAction(flow_id="dyn flow")
+      if $ok
+        send StartFlow(flow_id="dyn flow")
+    or when Remove()
+      await RemoveFlowsAction(flow_ids=["dyn flow"])
+      send Removed()
+"""
+RT_EVENTS = ["Query", "Go", "Go2", "Restart", "Second", "Add", "RunDyn", "DynGo", "Remove", "Ev0"]
+_rt = {}
+
+
+def _rt_rails():
+    if "rails" not in _rt:
+        from nemoguardrails import LLMRails, RailsConfig
+        from vf import pipeline
+
+        pipeline.loop()
+        _rt["rails"] = LLMRails(RailsConfig.from_content(RT_PROGRAM, 'colang_version: "2.x"\nmodels: []'))
+    return _rt["rails"]
+
+
+@st.composite
+def _rt_case(draw):
+    hist = draw(st.lists(st.one_of(st.sampled_from(RT_EVENTS), st.sampled_from(["Query", "Query", "Go"]), st.just("age")), min_size=3, max_size=14))
+    cuts = sorted(draw(st.lists(st.integers(1, len(hist) - 1), min_size=1, max_size=2, unique=True)))
+    return {"leg": "runtime", "hist": hist, "cuts": cuts, "mode": draw(st.sampled_from(MODES))}
+
+
+def _rt_run(case, cut, mode):
+    from nemoguardrails.colang.v2_x.runtime.serialization import json_to_state, state_to_json
+    from vf import pipeline
+
+    smh.install()
+    smh.CHOOSER.reset([])
+    smh.Clock.virtual = 0.0
+    rails = _rt_rails()
+    lp = pipeline.loop()
+    # AddFlowsAction writes into the flow-config dict that a fresh State shares with the runtime object; every run starts from the
+    # configured flows (conversations influencing each other through one instance is C15's subject, not this one's)
+    rails.runtime._init_flow_configs()
+    state = {}
+    every = mode in ("every", "every-age")
+    outs = []
+    n_dyn = 0
+    try:
+        for i, name in enumerate(["Begin"] + list(case["hist"])):
+            j = i - 1  # index in case["hist"]
+            if mode is not None and j >= 0 and (j == cut or (every and j > cut)):
+                if mode in ("save", "both", "every", "every-age"):
+                    try:
+                        state = json_to_state(state_to_json(state))
+                    except Exception as e:
+                        raise Violation("runtime-roundtrip-raises:" + type(e).__name__, f"cut {cut}: {e!r}"[:300] + f"; history {case['hist']}")
+                if mode in ("age", "both", "every-age"):
+                    smh.Clock.virtual += 6.0
+            if name == "age":
+                # idle time that is part of the history itself happens in both runs
+                smh.Clock.virtual += 6.0
+                continue
+            ev = {"type": name}
+            if name == "Ev0":
+                ev["v"] = i
+            try:
+                out, state = lp.run_until_complete(rails.runtime.process_events([ev], state=state, blocking=True))
+            except Exception as e:
+                if mode is None:
+                    raise
+                raise Violation("restored-run-raises:" + type(e).__name__, f"cut {cut} mode {mode}, event #{j} {name}: {e!r}"[:300] + f"; history {case['hist']}")
+            if j >= cut:
+                outs.append([{k: v for k, v in e.items()} for e in out])
+            n_dyn += sum(1 for e in out if e["type"] in ("Added", "DynDone"))
+    except BaseException:
+        pipeline.reset_runtime()
+        _rt.clear()
+        raise
+    return outs, n_dyn
+
+
+def _rt_prop(case):
+    compared = 0
+    dyn = 0
+    for cut in case["cuts"]:
+        live, n1 = _rt_run(case, cut, None)
+        other, _ = _rt_run(case, cut, case["mode"])
+        a, b = _novolatile(_canon_steps(live)), _novolatile(_canon_steps(other))
+        compared += 1
+        dyn = max(dyn, n1)
+        if a != b:
+            k = next((i for i, (x, y) in enumerate(zip(a, b)) if x != y), min(len(a), len(b)))
+            raise Violation(
+                "runtime-diverges-" + case["mode"],
+                f"cut before event #{cut} ({case['mode']}): live continuation emits {a[k] if k < len(a) else 'nothing more'} where the restored/aged one emits {b[k] if k < len(b) else 'nothing more'}; history {case['hist']} (program: vf.props.c11.RT_PROGRAM through RuntimeV2_x.process_events)",
+            )
+    labels = ["runtime-leg", "mode-" + case["mode"]] + (["dynamic-flows"] if dyn else [])
+    return ok(nt=len(case["hist"]) >= 4, labels=labels, view={"program": "RT_PROGRAM", "history": case["hist"], "cuts": case["cuts"], "mode": case["mode"]}, counters={"cut_points_compared": compared})
 
 
 def _rails_run(case, mode, start=0, state=None):
@@ -217,6 +357,7 @@ def enumerate_cases(tier):
             for mode in ("save", "age", "both", "every-age"):
                 yield {"prog": prog, "hist": base_hist, "uses": [[1, pos, use]], "cuts": list(range(1, len(base_hist))), "mode": mode, "choices": []}
     yield from _activation_cases()
+    yield from _runtime_cases()
     # hand-written families shared with C09 (two flows sharing one co-won action, ...): every cut x mode, both tie-break outcomes
     from vf.props import c09
 
@@ -227,6 +368,17 @@ def enumerate_cases(tier):
             for mode in ("age", "both", "save", "every-age"):
                 for choices in ([0], [1]):
                     yield {"text": text, "prog": {"flows": []}, "hist": h, "uses": [], "cuts": list(range(1, len(h))), "mode": mode, "choices": choices}
+
+
+def _runtime_cases():
+    # the real runtime with state-dependent system actions: all histories of length 3 over five events x both cuts x {age, save}
+    import itertools
+
+    for h in itertools.product(["Go", "Query", "Second", "Go2", "Restart"], repeat=3):
+        if "Query" not in h[1:]:
+            continue
+        for mode in ("age", "save"):
+            yield {"leg": "runtime", "hist": list(h), "cuts": [1, 2], "mode": mode}
 
 
 def _activation_cases():
@@ -357,6 +509,8 @@ def _nouuid(x, names):
 def prop(case):
     if case.get("leg") == "rails":
         return _rails_prop(case)
+    if case.get("leg") == "runtime":
+        return _rt_prop(case)
     text = build(case)
     labels = ["mode-" + case["mode"]] + sorted({"use-" + u[2] for u in case["uses"]}) + (["library"] if case.get("leg") == "lib" else [])
     nt = False
